@@ -151,10 +151,42 @@ Theorem C10_export_valid : forall data track ign_c ign_a ff of ps cs amb,
   Valid (map CdeValid.cde_course cs) (map CdeValid.cde_part ps).
 Proof. exact CdeValid.export_valid. Qed.
 
-Check C10_export_valid. Check C10_document_total. Check C10_node_total. Check C10_total. Check C10_size_checker. Check C10_document_valid. Check C10_document_node. Check C10_float_sane_checker. Check C10_node. Check C10_node_class. Check C10_root_wf. Check C10_children_wf. Check C10_search. Check C10_no_failure. Check C10_never_stuck. Check C10_node_noroom.
+Check C10_export_valid. Check C10_document_total. (* Since fix edde4a5 the code's shrink size is max(floor(..), num_min + instructors): RoomSites.fixed_shrink.  For it the FloatSane
+   hypothesis holds by construction (float_sane_fixed), for every forward size function and every room list -- so for the code as it is
+   now NO hypothesis about the floating-point arithmetic remains: *)
+Theorem C10_fixed_node : forall courses parts esize shrinkf rooms nd s,
+  Valid courses parts -> Wf2 courses nd ->
+  run_full courses parts esize (fixed_shrink courses shrinkf) rooms nd <> Panic s.
+Proof.
+  intros courses parts esize shrinkf rooms nd s V Hwf.
+  apply (C10_node courses parts esize (fixed_shrink courses shrinkf) rooms nd s V (float_sane_fixed courses esize shrinkf rooms) Hwf).
+Qed.
+Theorem C10_fixed_total : forall courses parts esize shrinkf rooms smin smax k st,
+  Valid courses parts -> SizeOK courses parts ->
+  SReach courses parts esize (fixed_shrink courses shrinkf) rooms smin smax k st -> EngP2.failed node assignment st = [].
+Proof.
+  intros courses parts esize shrinkf rooms smin smax k st V Hs.
+  apply (C10_total courses parts esize (fixed_shrink courses shrinkf) rooms smin smax k st V (float_sane_fixed courses esize shrinkf rooms) Hs).
+Qed.
+Theorem C10_fixed_answered : forall courses parts esize shrinkf rooms smin smax k st nd,
+  Valid courses parts -> SizeOK courses parts ->
+  SReach courses parts esize (fixed_shrink courses shrinkf) rooms smin smax k st -> In nd (EngP2.generated node assignment st) ->
+  exists r, run_full courses parts esize (fixed_shrink courses shrinkf) rooms nd = Val r.
+Proof.
+  intros courses parts esize shrinkf rooms smin smax k st nd V Hs R Hin.
+  pose proof (float_sane_fixed courses esize shrinkf rooms) as FS.
+  destruct (EngP2.reach_gen node assignment (f_full courses parts esize (fixed_shrink courses shrinkf) rooms) root smin smax (Wf2 courses) (wf2_root courses)
+             (fun n cs s0 c Pn Hf Hc => children_wf2 courses parts esize (fixed_shrink courses shrinkf) rooms V FS n cs s0 Pn (to_eng_inf _ _ _ Hf) c Hc) k st R) as (Hg & _).
+  rewrite Forall_forall in Hg. apply (C10_node_total courses parts esize (fixed_shrink courses shrinkf) rooms nd V FS Hs (Hg nd Hin)).
+Qed.
+
+Check C10_fixed_node. Check C10_fixed_total. Check C10_fixed_answered. Check C10_node_total. Check C10_total. Check C10_size_checker. Check C10_document_valid. Check C10_document_node. Check C10_float_sane_checker. Check C10_node. Check C10_node_class. Check C10_root_wf. Check C10_children_wf. Check C10_search. Check C10_no_failure. Check C10_never_stuck. Check C10_node_noroom.
 Print Assumptions C10_node.
 Print Assumptions C10_node_total.
 Print Assumptions C10_total.
+Print Assumptions C10_fixed_node.
+Print Assumptions C10_fixed_total.
+Print Assumptions C10_fixed_answered.
 Print Assumptions C10_document_total.
 Print Assumptions C10_export_valid.
 Print Assumptions C10_document_valid.
